@@ -31,6 +31,7 @@ REQUIRED = [
     "C02_old_domain_view_delete_counterexample",
     "C02_old_set_data_axes_counterexample",
     "C02_old_insert_dimension_counterexample",
+    "C02_del_construct_cleans_references",
     "C02_set_data_rejected_unchanged",
     "C02_axis_resize_breaks_inv",
     "C02_dangling_cell_method_breaks_inv",
@@ -41,7 +42,7 @@ BUDGET = {"quick": 2400, "thorough": 30000}
 QUICK_JOBS = 4
 RULE = (
     "random histories (quick: 4-14 ops, thorough: 4-40 ops) of public calls on cfdm.Field / f.domain starting from an empty "
-    "field, example fields 0-3,5-7 or a random valid field: set_construct (every type except topologies; new / same-type key / "
+    "field, example fields 0-3,5-7 or a random valid field: set_construct (every type, also domain topology / cell connectivity; new / same-type key / "
     "other-type key / key that collides with a later automatic identifier; valid, wrong-shape, missing or unknown axes; through "
     "the field and through the domain view), del_construct (existing, in use, unknown; both routes), set_data / del_data / "
     "set_data_axes / del_data_axes (field and per construct), constructs.replace, copy / Field(source=), subspace, squeeze, "
@@ -52,7 +53,7 @@ ASSUMPTIONS = [
     "constructs are abstracted to (type, data/bounds/interior-ring shapes, axis size, named axes/constructs); values and properties play no role in the invariant",
     "a construct handed to set_construct is itself consistent (bounds / interior ring agree with its data on the leading dimensions, which cfdm's own set_bounds enforces)",
     "direct mutation of a construct object fetched from the field (e.g. DomainAxis.set_size on the contained object) is not a container operation and is outside the histories",
-    "construct identifiers have the standard form <letters><number>; domain topology / cell connectivity constructs are not generated",
+    "construct identifiers have the standard form <letters><number>",
     "inplace=True is combined with constructs=True in neither transpose nor insert_dimension (a failure half-way through the loop over constructs depends on dictionary order)",
     "a field that has data but no data axes (or a construct without data axes) is a partially built state of ab-initio creation, not a violation",
 ]
@@ -108,7 +109,8 @@ def sh_con(ret, t, k, c, sort=True):
     srt = sorted if sort else list
     cm = "+".join(srt(cm_tok(ret, a) for a in c["cmaxes"])) or "n"
     co = "+".join(srt(sh_key(ret, a) for a in c["coords"])) or "n"
-    an = "+".join(srt("~" if a is None else sh_key(ret, a) for a in c["ancils"])) or "n"
+    # every term -> key pair of the coordinate conversion (`term~` = the term is mapped to None)
+    an = "+".join(srt(f"{t}~" + ("" if a is None else sh_key(ret, a)) for t, a in c["ancils"])) or "n"
     return "/".join([t, "-" if k is None else sh_key(ret, k), sh_shape(c["data"]), sh_shape(c["bounds"]), "1" if c["geom"] else "0",
                      sh_shape(c["ring"]), "_" if c["size"] is None else str(c["size"]), cm, co, an])
 
@@ -142,7 +144,7 @@ def abstract(f):
                 cons[(t, k)] = blank(cmaxes=list(c.get_axes(())))
             elif t == "ref":
                 cons[(t, k)] = blank(coords=sorted(c.coordinates()),
-                                     ancils=list(c.coordinate_conversion.domain_ancillaries().values()))
+                                     ancils=list(c.coordinate_conversion.domain_ancillaries().items()))
             else:
                 d = tuple(c.data.shape) if c.has_data() else None
                 b = r = None
@@ -252,7 +254,7 @@ def invariant(f):
                         return f"coordinate reference {k} names non-existent coordinate {co}"
                 for term, v in r.coordinate_conversion.domain_ancillaries().items():
                     if v is not None and types.get(v) != "dan":
-                        return f"coordinate reference {k} names non-existent domain ancillary {v}"
+                        return f"coordinate reference {k} term {term} names non-existent domain ancillary {v}"
         dom = f.domain
         dk = set(dom.constructs.todict())
         fk = {k for k, t in types.items() if t not in ("cm", "fan")}
@@ -286,7 +288,12 @@ def mk_construct(t, c):
     if t == "ref":
         return C.CoordinateReference(
             coordinates=list(c["coords"]),
-            coordinate_conversion=C.CoordinateConversion(domain_ancillaries={f"t{i}": v for i, v in enumerate(c["ancils"])}))
+            coordinate_conversion=C.CoordinateConversion(domain_ancillaries={t: v for t, v in c["ancils"]}))
+    if t in ("top", "con"):
+        x = C.DomainTopology(cell="face") if t == "top" else C.CellConnectivity(connectivity="edge")
+        if c["data"] is not None:
+            x.set_data(C.Data(np.zeros(c["data"], dtype=int)))
+        return x
     cls = {"dim": C.DimensionCoordinate, "aux": C.AuxiliaryCoordinate, "msr": C.CellMeasure, "fan": C.FieldAncillary,
            "dan": C.DomainAncillary}[t]
     x = cls()
@@ -424,7 +431,8 @@ def dec_con(ret, s):
     c = blank(data=_shape(d), bounds=_shape(b), geom=g == "1", ring=_shape(r), size=None if sz == "_" else int(sz),
               cmaxes=[] if cmx == "n" else [x[1:] if x.startswith("~") else _key(ret, x) for x in cmx.split("+")],
               coords=_keys(ret, co),
-              ancils=[] if an == "n" else [None if x == "~" else _key(ret, x) for x in an.split("+")])
+              ancils=[] if an == "n" else [(x.split("~")[0], None if x.split("~")[1] == "" else _key(ret, x.split("~")[1]))
+                                           for x in an.split("+")])
     return t, c
 
 
@@ -500,7 +508,7 @@ def gen_op(rng, st, bad_p=0.25):
         return c
 
     if r < 0.30 or not akeys:
-        t = rng.choice(["axis", "axis", "dim", "aux", "aux", "msr", "fan", "dan", "cm", "ref"])
+        t = rng.choice(["axis", "axis", "dim", "aux", "aux", "msr", "fan", "dan", "cm", "ref"] * 3 + ["top", "con"])
         if t == "axis" or not sized:
             key = None
             q = rng.random()
@@ -526,16 +534,43 @@ def gen_op(rng, st, bad_p=0.25):
         if t == "ref":
             coords = sorted(k for (tt, k) in cons if tt in ("dim", "aux"))
             dans = sorted(k for (tt, k) in cons if tt == "dan")
-            co = rng.sample(coords, min(len(coords), rng.randint(0, 2)))
-            an = rng.sample(dans, min(len(dans), rng.randint(0, 2)))
+            # coordinates / ancillaries already used by another reference are preferred half of the time, so that
+            # several references share one construct
+            used_co = sorted({x for (tt, k), c in cons.items() if tt == "ref" for x in c["coords"] if x in coords})
+            used_an = sorted({v for (tt, k), c in cons.items() if tt == "ref" for _, v in c["ancils"] if v in dans})
+            pool_co = used_co if used_co and rng.random() < 0.5 else coords
+            pool_an = used_an if used_an and rng.random() < 0.5 else dans
+            co = rng.sample(pool_co, min(len(pool_co), rng.randint(0, 2)))
+            vals = rng.sample(pool_an, min(len(pool_an), rng.randint(0, 2)))
+            if vals and rng.random() < 0.65:
+                # one domain ancillary as the value of 2-3 terms of the same coordinate conversion
+                vals = vals + [vals[0]] * rng.randint(1, 2)
+                rng.shuffle(vals)
             if rng.random() < 0.15:
-                an = an + [None]
+                vals = vals + [None]
             if bad and rng.random() < 0.1:
                 co = co + [rng.choice(["auxiliarycoordinate99"] + sorted(k for (tt, k) in cons if tt in ("msr", "axis")))]
             if bad and rng.random() < 0.05:
-                an = an + ["domainancillary99"]
+                vals = vals + ["domainancillary99"]
+            names = rng.sample(["a", "b", "orog", "sigma", "eta", "depth", "zlev"], len(vals))
             key = rng.choice(refs) if refs and rng.random() < 0.2 else None
-            return ("setc", via, "ref", blank(coords=co, ancils=an), key, None)
+            return ("setc", via, "ref", blank(coords=co, ancils=list(zip(names, vals))), key, None)
+        if t in ("top", "con"):
+            # a domain topology / cell connectivity: (cells, nodes) data on ONE domain axis (`shape` = the first dimension)
+            ax = pick_axes(1)
+            shp = [size[a] for a in ax] + [rng.randint(2, 4)]
+            aa = list(ax)
+            if bad:
+                q = rng.random()
+                if q < 0.3:
+                    shp[0] += 1
+                elif q < 0.5:
+                    aa = aa + [rng.choice(sized)]  # two axes never fit a topology
+                elif q < 0.7:
+                    aa = None
+            same = sorted(k for (tt, k) in cons if tt == t)
+            key = rng.choice(same) if same and rng.random() < 0.2 else None
+            return ("setc", via, t, blank(data=tuple(shp) if len(shp) >= 2 else None), key, aa)
         ax = pick_axes(1 if t == "dim" else 3)
         shape = [size[a] for a in ax]
         key = None
@@ -573,6 +608,11 @@ def gen_op(rng, st, bad_p=0.25):
         return ("setc", via, t, arr_con(t, shape), key, aa)
     if r < 0.44:
         allk = sorted(types)
+        named = sorted({x for (tt, k), c in cons.items() if tt == "ref" for x in list(c["coords"]) + [v for _, v in c["ancils"] if v is not None]
+                        if x in types})
+        if named and rng.random() < 0.5:
+            # a construct that coordinate references name (through the field or through the domain view)
+            return ("delc", rng.choice(["f", "d"]), rng.choice(named))
         k = rng.choice(allk) if allk and not (bad and rng.random() < 0.3) else rng.choice(["auxiliarycoordinate99", "domainaxis99"])
         return ("delc", via, k)
     if r < 0.52:
@@ -824,7 +864,7 @@ def classify(c):
         return None
     if not f.get("sig"):
         # not a listed finding: group the violations of one run by kind of call and kind of damage
-        return "unlisted:" + f["kind"] + ":" + re.sub(r"[a-z]+[0-9]+|[0-9]+|\(.*?\)", "#", f["problem"])[:60].strip().replace(" ", "-")
+        return "unlisted:" + f["kind"] + ":" + re.sub(r"term \S+|[a-z]+[0-9]+|[0-9]+|\(.*?\)", "#", f["problem"])[:60].strip().replace(" ", "-")
     # a known finding is only recognised when the whole observed trace is what the model of the container
     # AS CODED produces for this history (so any other deviation is still reported)
     m = _model(c)
